@@ -519,7 +519,7 @@ func c20Run(c *ctx, sc c20Scenario) {
 	if !hang {
 		t0 := time.Now()
 		for runtime.NumGoroutine() > n0 {
-			if time.Since(t0) > time.Second {
+			if time.Since(t0) > 3*time.Second {
 				leak = 1
 				break
 			}
